@@ -9,9 +9,10 @@ INDEX_MUT = "std::ops::IndexMut::index_mut"
 
 
 def st_sites(facts):
+    ts = thread_side_paths(facts)
     out = []
     for body in runner_bodies(facts):
-        if body.kind == "closure":
+        if body.path in ts:
             continue
         for ws in work_sites(facts, body):
             out.append(ws)
